@@ -133,7 +133,7 @@ def run_step(delta, has_ct, pressure_at, remaining, deleting, with_delete_handle
         meta['finalizers'] = [FIN]      # the daemon requires it: already in place unless its addition is the pending patch
     if handled:
         meta['annotations'][LHC] = json.dumps({'spec': {'x': 1}}) + '\n'
-    w = World(base_body(spec={'x': 2 if changed else 1}, **meta))
+    w = World(base_body(spec={'x': 2 if changed else 1}, **meta), tmode='symbolic')
     loop = w.loop
     log = []
 
